@@ -622,6 +622,8 @@ fn run_life(world: &Shared, setup: &Setup, steps: &mut u64) -> LifeEnd {
     let mut events_received = 0u64;
     let mut sm_gone = false;
     let mut done_pending = false;
+    let mut idle_polls = 0u32;
+    let mut last_pending_vt = u64::MAX;
     let max_steps = lock(world).profile.max_steps;
     let max_checks = lock(world).profile.max_checks;
     // scenario events
@@ -673,6 +675,7 @@ fn run_life(world: &Shared, setup: &Setup, steps: &mut u64) -> LifeEnd {
             What::Complete(_) => {
                 let fired = fire_simple(world, ev);
                 if fired {
+                    idle_polls = 0;
                     // scenario triggers keyed on the number of completions
                     let mut w = lock(world);
                     let n = w.ordinal("__completion");
@@ -757,6 +760,18 @@ fn run_life(world: &Shared, setup: &Setup, steps: &mut u64) -> LifeEnd {
                             lock(world).rec(Kind::Poll { task: "consumer".into(), ready: false });
                             if done_pending {
                                 break LifeEnd::Done;
+                            }
+                            // busy loop: the task keeps waking itself without anything happening
+                            let vt_now = lock(world).vt;
+                            if consumer_flag.flag.load(Ordering::SeqCst) && vt_now == last_pending_vt {
+                                idle_polls += 1;
+                            } else {
+                                idle_polls = 0;
+                            }
+                            last_pending_vt = vt_now;
+                            if idle_polls > 300 {
+                                lock(world).rec(Kind::Note("spin".into()));
+                                break LifeEnd::Stuck;
                             }
                         }
                     }
